@@ -339,6 +339,9 @@ def run(run, model):
     run.try_rule(r10_8, model)
     run.try_rule(r10_9, model)
     run.try_rule(r10_10, model)
+    from rules import c09
+    run.rule("R10.11", "a division that can fail is never removed as dead code, for every integer width (shared with C09 R09.4)")
+    run.try_rule(c09.r09_4, model)
     run.try_rule(r10_1, model)
     run.try_rule(r10_2, model)
     run.try_rule(r10_3, model)
